@@ -640,6 +640,8 @@ type c07Scn struct {
 	// only: the scenarios are replayed for C03 ("acct": judges the accounting invariant only) or for C04 ("dir": judges
 	// directory == index only); "" = C07 judges everything
 	only string
+	// backend: the current scenario's cache has a proxy backend (existence checks may be answered by it)
+	backend bool
 }
 
 func (s *c07Scn) viol(suffix, what string, detail any) {
@@ -671,8 +673,12 @@ func (s *c07Scn) finish(c disk.Cache, reached bool) {
 	if len(bad) > 0 {
 		s.viol("acct:"+classify(bad[0]), fmt.Sprintf("accounting diverged in forced schedule %q: %v", s.name, bad), s.detail(bad))
 	}
-	if d, _, verdict := lib.CheckDirQuiescent(c, true); verdict == "violated" {
+	if d, dsnap, verdict := lib.CheckDirQuiescent(c, true); verdict == "violated" {
 		s.viol("dir:"+dirClass(d), fmt.Sprintf("directory != index after forced schedule %q: %s", s.name, d.String()), s.detail(d))
+	} else if verdict == "ok" && !s.backend {
+		if lost := lib.CheckEntriesFound(c, dsnap); len(lost) > 0 {
+			s.viol("dir:file-of-entry-not-found-by-lookups", fmt.Sprintf("files on disk whose index entries no lookup finds after forced schedule %q: %v", s.name, lost), s.detail(lost))
+		}
 	}
 	s.r.Eval()
 	s.r.Distinct("scenario", s.name, reached)
@@ -887,6 +893,7 @@ func (s *c07Scn) commitRefused(storage string) {
 // S5: proxy fetch about to commit while the same key is uploaded.
 func (s *c07Scn) fetchVsUpload(storage string) {
 	s.name = "proxy-fetch-vs-upload"
+	s.backend = true
 	dir := s.pool.Get()
 	defer s.pool.Put(dir)
 	px := lib.NewFakeProxy(storage == "zstd")
@@ -1015,6 +1022,7 @@ func (s *c07Scn) failedReaderVsEviction(reupload bool) {
 // every answer must be a miss; the contains workers and the request goroutine share the fail-fast state.
 func (s *c07Scn) failFastConcurrentMisses(storage string) {
 	s.name = "failfast-concurrent-misses"
+	s.backend = true
 	dir := s.pool.Get()
 	defer s.pool.Put(dir)
 	px := lib.NewFakeProxy(storage == "zstd")
@@ -1234,6 +1242,7 @@ func runGateScenarios(r *lib.Run, hc *lib.HookCtl, pool *lib.DirPool, rng *rand.
 			func() { scn.failedReaderVsEviction(true) },
 		} {
 			scn.log = nil
+			scn.backend = false
 			f()
 		}
 		if r.Violations() > 12 {
